@@ -371,8 +371,15 @@ impl Default for ExecCfg {
     }
 }
 
+/// number of executions that got stuck in real time (busy loop / blocking call inside one poll) in this process
+pub static WEDGED: std::sync::atomic::AtomicUsize = std::sync::atomic::AtomicUsize::new(0);
+
 /// Run one execution (choice vector = `prefix` then defaults) on a fresh thread.
 pub fn run_exec(sc: &ScenarioFn, cfg: &ExecCfg, prefix: &[u16], expect_hash: u64) -> ExecRecord {
+    if WEDGED.load(std::sync::atomic::Ordering::SeqCst) >= 3 {
+        // not started: three executions of this process are already stuck for good
+        return ExecRecord { trace: prefix.iter().map(|c| Choice { site: "?", n: u16::MAX, chosen: *c }).collect(), outcome: Outcome::default(), diverged: None, notes: vec!["skipped: stuck executions".into()] };
+    }
     let sc = sc.clone();
     let cfg2 = cfg.clone();
     let prefix_v = prefix.to_vec();
@@ -460,12 +467,17 @@ pub fn run_exec(sc: &ScenarioFn, cfg: &ExecCfg, prefix: &[u16], expect_hash: u64
             });
         })
         .expect("spawn execution thread");
-    match rx.recv_timeout(cfg.watchdog) {
+    // stuck executions cannot be killed and keep a core busy: after the first one the watchdog is short, after three no
+    // further execution is started (the violation is already established; see WEDGED)
+    let wedged = WEDGED.load(std::sync::atomic::Ordering::SeqCst);
+    let watchdog = if wedged == 0 { cfg.watchdog } else { cfg.watchdog.min(Duration::from_secs(8)) };
+    match rx.recv_timeout(watchdog) {
         Ok(r) => {
             let _ = th.join();
             r
         }
         Err(_) => {
+            WEDGED.fetch_add(1, std::sync::atomic::Ordering::SeqCst);
             // The execution thread is stuck without reaching a choice site (a
             // busy loop inside one poll, or a blocking call). It cannot be
             // killed; report and leave it detached.
